@@ -292,6 +292,8 @@ pub fn exec<F: Future>(fut: F, o: ExecOpts) -> Option<F::Output> {
     let mut cx = Context::from_waker(waker);
     let started = clock::now();
     let mut polls = 0u64;
+    let mut polls_same_t = 0u64;
+    let mut last_t = clock::now();
     with(|w| w.spin_count = 0);
     loop {
         clock::clear_wake();
@@ -303,7 +305,21 @@ pub fn exec<F: Future>(fut: F, o: ExecOpts) -> Option<F::Output> {
             Poll::Ready(v) => return Some(v),
             Poll::Pending => {
                 polls += 1;
-                if polls > POLLS_PER_OP_LIMIT {
+                if clock::now() != last_t {
+                    last_t = clock::now();
+                    polls_same_t = 0;
+                } else {
+                    polls_same_t += 1;
+                }
+                if polls > 4_000 && o.cancellable && polls_same_t < 1000 {
+                    // the application has waited long enough (e.g. recv() across many keep-alive cycles)
+                    with(|w| {
+                        w.kind(44);
+                        w.log(|| "app: gives up waiting after many wake-ups".to_string());
+                    });
+                    return None;
+                }
+                if polls_same_t > POLLS_PER_OP_LIMIT {
                     with(|w| {
                         w.violate(
                             "C16",
@@ -390,6 +406,21 @@ fn payload_len(w: &mut World) -> usize {
     }
 }
 
+/// Size of the CONNECT this configuration produces (plus the 5 bytes of header scratch).
+pub fn connect_need(w: &World) -> usize {
+    let c = &w.cfg;
+    let p = Packet::Connect {
+        clean_start: false,
+        keepalive: 0,
+        props: vec![Prop { id: 0x27, val: PVal::U32(1) }, Prop { id: 0x11, val: PVal::U32(1) }, Prop { id: 0x21, val: PVal::U16(1) }],
+        client_id: if c.client_id.is_empty() { "assigned-00".to_string() } else { c.client_id.clone() },
+        will: c.will.as_ref().map(|x| codec::WillMsg { qos: x.qos, retain: x.retain, props: x.props.clone(), topic: x.topic.clone(), payload: x.payload.clone() }),
+        user: c.auth.as_ref().map(|a| a.0.clone()),
+        password: c.auth.as_ref().map(|a| a.1.clone()),
+    };
+    codec::encode(&p).len() + 8
+}
+
 fn new_tag(w: &mut World) -> u32 {
     let t = w.next_tag;
     w.next_tag += 1;
@@ -415,7 +446,28 @@ pub fn gen_publish(w: &mut World, qos: u8) -> PubSpec {
         None
     };
     let payload_fails = w.tape.chance(1, 40);
-    PubSpec { tag, topic, payload, qos, retain, props, correlate, payload_fails }
+    let mut spec = PubSpec { tag, topic, payload, qos, retain, props, correlate, payload_fails };
+    if w.cfg.guards && qos > 0 {
+        // Avoidance guard for the open finding "CONNECT is encoded behind the retained packets":
+        // keep enough of the arena free for the next CONNECT (off in ~20 % of the runs).
+        let need = connect_need(w);
+        let ep = w.epoch;
+        let retained: usize = w
+            .reqs
+            .iter()
+            .filter(|r| r.epoch == ep && !r.invalidated && r.accept != Accept::NotAccepted && r.qos > 0 && !matches!(r.phase, Phase::Done(_)) && r.phase != Phase::Release)
+            .map(|r| r.first_tx.as_ref().map_or_else(|| codec::encode(&r.expected).len() + 2, |b| b.len()))
+            .sum();
+        let room = w.cfg.tx_len.saturating_sub(need + retained);
+        let overhead = spec.topic.len() + 12 + codec::props_len(&spec.props) + spec.correlate.as_ref().map_or(0, |c| c.len() + 3);
+        if room < overhead + 1 {
+            spec.qos = 0;
+            spec.payload.truncate(room.saturating_sub(overhead).min(spec.payload.len()));
+        } else if spec.payload.len() + overhead > room {
+            spec.payload.truncate(room - overhead);
+        }
+    }
+    spec
 }
 
 fn register_req(w: &mut World, tag: u32, kind: ReqKind, qos: u8, expected: Packet, is_probe: bool) -> usize {
@@ -441,6 +493,7 @@ fn register_req(w: &mut World, tag: u32, kind: ReqKind, qos: u8, expected: Packe
         invalidated: false,
         ambiguous: w.session_ambiguous,
         is_probe,
+        must_refuse: false,
     };
     w.reqs.push(r);
     let i = w.reqs.len() - 1;
@@ -513,6 +566,12 @@ fn check_result(w: &mut World, op: &'static str, res: &Res, was_live: bool, io_e
     let expect = w.expect.take();
     let io_err_now = w.conns[cur].io_error.is_some() && !io_err_before;
     if *res == Res::Cancelled {
+        if matches!(expect, Some(Expect::Invalid) | Some(Expect::InvalidOrEof)) && w.conns[cur].rx_consumed < w.conns[cur].rx_total_enqueued {
+            // only the beginning of the malformed bytes was read so far: verdict when the
+            // operation that reads the rest returns
+            w.expect = expect;
+            return;
+        }
         if let Some(e) = expect {
             // a fatal/failing packet cannot be consumed without the operation returning
             w.violate(
@@ -539,6 +598,15 @@ fn check_result(w: &mut World, op: &'static str, res: &Res, was_live: bool, io_e
                     "C11",
                     format!("broker-disconnect-not-reported/op={op}"),
                     format!("{op} consumed a broker DISCONNECT but returned {}", res.name()),
+                );
+            }
+        }
+        Some(Expect::InvalidOrEof) => {
+            if !matches!(res, Res::InvalidPacket | Res::Disconnected) && !io_err_now {
+                w.violate(
+                    "C08",
+                    format!("garbage-not-rejected/op={op}"),
+                    format!("{op} consumed garbage followed by EOF but returned {}", res.name()),
                 );
             }
         }
@@ -787,6 +855,9 @@ pub fn do_publish(conn: &mut Conn<'_, '_>, spec: &PubSpec) -> Res {
     with(|w| {
         check_result(w, "publish", &res, was_live, io_err_before);
         settle_req(w, ri, &res, handle);
+        if res == Res::Cancelled && eff_qos == 0 {
+            w.qos0_cancelled = true;
+        }
         // C19: the handle matches the QoS actually used
         match (&res, eff_qos) {
             (Res::OkOp, 0) => w.violate("C19", "handle-for-qos0".into(), "publish at effective QoS 0 returned a handle".into()),
@@ -797,19 +868,13 @@ pub fn do_publish(conn: &mut Conn<'_, '_>, spec: &PubSpec) -> Res {
             ),
             _ => {}
         }
-        if spec.payload_fails && !matches!(res, Res::Payload | Res::Cancelled) && !res.is_fatal() && !matches!(res, Res::NotReady | Res::InflightExhausted | Res::InvalidRequest) {
+        if spec.payload_fails && matches!(res, Res::Ok | Res::OkOp) {
             w.violate("C09", "payload-error-ignored".into(), format!("payload serializer failed but publish returned {}", res.name()));
         }
-        if w.reqs[ri].accept == Accept::NotAccepted && conn.is_connected() {
-            let q_after = conn.session().is_publish_quiescent();
-            if q_after != quiescent_before {
-                w.violate(
-                    "C19",
-                    format!("refused-request-changed-quiescence/{}", res.name()),
-                    "a refused publish changed is_publish_quiescent()".into(),
-                );
-            }
+        if spec.payload_fails {
+            w.reqs[ri].must_refuse = true;
         }
+        let _ = quiescent_before;
     });
     after_op(conn);
     res
@@ -819,6 +884,22 @@ pub struct SubSpec {
     pub tag: u32,
     pub filters: Vec<SubFilter>,
     pub props: Vec<Prop>,
+}
+
+/// Avoidance guard (see gen_publish): is there room for `size` more retained bytes?
+pub fn guard_room(w: &World, size: usize) -> bool {
+    if !w.cfg.guards {
+        return true;
+    }
+    let need = connect_need(w);
+    let ep = w.epoch;
+    let retained: usize = w
+        .reqs
+        .iter()
+        .filter(|r| r.epoch == ep && !r.invalidated && r.accept != Accept::NotAccepted && r.qos > 0 && !matches!(r.phase, Phase::Done(_)) && r.phase != Phase::Release)
+        .map(|r| r.first_tx.as_ref().map_or_else(|| codec::encode(&r.expected).len() + 2, |b| b.len()))
+        .sum();
+    need + retained + size <= w.cfg.tx_len
 }
 
 pub fn gen_subscribe(w: &mut World) -> SubSpec {
@@ -1043,9 +1124,15 @@ pub fn do_wait(conn: &mut Conn<'_, '_>, kind: Wait, opts: Option<ExecOpts>) -> R
             _ => {}
         }
         // every message whose bytes the client consumed completely must have been handed over
+        if res == Res::PacketTooLarge {
+            // C14: the mandatory acknowledgement does not fit: the connection is closed instead;
+            // nothing was acknowledged, so nothing has to be delivered either
+            w.conns[cur].expect_deliver.clear();
+            w.conns[cur].owed_acks.pop_back();
+        }
         if !matches!(res, Res::OkMsg(_)) && !w.conns[cur].expect_deliver.is_empty() {
             let bi = w.conns[cur].expect_deliver[0];
-            if !res.is_fatal() && res != Res::Cancelled || res == Res::Cancelled {
+            {
                 let t = w.bmsgs[bi].topic.clone();
                 w.violate(
                     "C04",
@@ -1100,6 +1187,9 @@ pub fn do_disconnect(conn: &mut Conn<'_, '_>, spec: &DiscSpec) -> Res {
     with(|w| {
         check_result(w, "disconnect", &res, was_live, io_err_before);
         let cur = w.cur;
+        if res == Res::Cancelled {
+            w.conns[cur].disconnect_cancelled = true;
+        }
         if res == Res::Ok && was_live && !w.conns[cur].saw_disconnect {
             let c = &w.conns[cur];
             let inside = if c.parsed != c.wire.len() { codec::type_name_of(c.wire[c.parsed] >> 4) } else { "none" };
@@ -1183,9 +1273,12 @@ pub fn close_conn(w: &mut World, how: &'static str) {
     w.kind(45);
     w.log(|| format!("app: connection {cur} ends ({how})"));
     // acknowledgements still owed may legitimately be re-sent on a resumed connection
-    let mut carry: std::collections::VecDeque<_> = std::mem::take(&mut w.conns[cur].carry_acks);
-    carry.extend(std::mem::take(&mut w.conns[cur].owed_acks));
-    w.carry_over_acks = carry;
+    let carry = std::mem::take(&mut w.conns[cur].carry_acks);
+    let owed = std::mem::take(&mut w.conns[cur].owed_acks);
+    let unflushed = std::mem::take(&mut w.conns[cur].unflushed_acks);
+    w.carry_over_acks.extend(unflushed);
+    w.carry_over_acks.extend(carry);
+    w.carry_over_acks.extend(owed);
     w.conns[cur].expect_deliver.clear();
     // whatever the broker withheld on this connection is gone with it
     w.withheld.retain(|(c, _)| *c != cur);
